@@ -73,6 +73,7 @@ class FuncInfo:
         self.parent = parent
         self.nested: Dict[str, "FuncInfo"] = {}
         self._cfg = None
+        self._reaching = None
 
     @property
     def short(self):
